@@ -46,6 +46,11 @@ def main(tier):
         total += ev.parts[part]["replay"]["behaviours"]
         k = next((e for e in g.out[g.init]), None)
         ev.sample({"part": part, "edge": {"act": k[0], "to_obs": g.obs[k[1]]}}, 3)
+    # code -> spec: free-running histories on up to 14 cells with the matrices logged, identities evaluated by TLC
+    nw = 12 if tier == "quick" else 80
+    for part, bs, p in (("traces_z2", z2bins, 2), ("traces_z3", zpbins, 3)):
+        unknown += pm_common.trace_part(ev, PROP, part, 0, bs, p, False, nw, 30, 14, MATCHERS, fnd)
+        total += ev.parts[part]["events_matched"]
     ev.cov["evaluations"] = total
     ev.cov["distinct_nontrivial"] = ev.cov["states"]
     ev.cov["exhaustive"] = True
